@@ -311,6 +311,24 @@ def check_C02(ctx):
             big = s.val(s.op(0, 'ite', va['a'], want, other))
             cof = s.val(s.op(0, 'let_b', big, 'n:a=1'))
             got['cofactor'] = cof if not sp.depends(t, 'a') else None
+            # route: simultaneous substitution of two variables by functions that may mention
+            # any variable; the result must be THE reference of the substituted function
+            ks = rng.sample(ABC, 2)
+            sub = {k: rng.randrange(sp.full + 1) for k in ks}
+            src_t = rng.randrange(sp.full + 1)
+            r_c = s.val(s.op(0, 'let_r', refs[src_t], ','.join(f'{k}={refs[g_]}' for k, g_ in sub.items())))
+            want_c = refs[sp.compose(src_t, sub)]
+            if r_c != want_c:
+                ctx.violation('route compose gives another reference for the same function', dict(
+                    route='compose', tt=src_t, substitution=sub, order=order, node_by_node=want_c,
+                    other=r_c, tags=dict(call='route:compose')))
+            # single-variable composition
+            k1 = rng.choice(ABC)
+            g1 = rng.randrange(sp.full + 1)
+            r_c1 = s.val(s.op(0, 'let_r', refs[src_t], f'{k1}={refs[g1]}'))
+            if r_c1 != refs[sp.compose(src_t, {k1: g1})]:
+                ctx.violation('route compose (one variable) gives another reference', dict(
+                    route='compose1', tt=src_t, var=k1, g=g1, order=order, tags=dict(call='route:compose1')))
             # route: copy from the other manager
             bld1 = getattr(s, '_bld1', None)
             if bld1 is None:
